@@ -232,6 +232,11 @@ def alphabet():
     ma("m((1,'2'),tuple[str,int])", "tuple", lambda: tuple[str, int], lambda: (1, "2"))
     ma("m((1,2),tuple[str,...])", "tuple", lambda: tuple[str, ...], lambda: (1, 2))
     um("u(list[int],['1','2'])", "tuple", lambda: list[int], lambda: ["1", "2"])
+    # empty inputs of mutable container targets (a routine must not hand out one shared empty result)
+    um("u(list[int],[])", "tuple", lambda: list[int], lambda: [])
+    um("u(list[int],'[]')", "tuple", lambda: list[int], lambda: "[]")
+    um("u(set[int],[])", "tuple", lambda: set[int], lambda: [])
+    um("u(dict[str,int],{})", "tuple", lambda: dict[str, int], lambda: {})
     ma("m(True,bool)", "num", bool, lambda: True)
     ma("m(5,int)", "num", int, lambda: 5)
     ma("m(True,int)", "num", int, lambda: True)
